@@ -96,6 +96,27 @@ def run(ctx):
                     for bp in ev[4]:
                         if bp[0] in ("fall", "continue"):
                             visit(bp[2], lctx + [(ev, bp)], top_index if top_index is not None else i)
+                elif ev[0] == "mutcall" and ev[2] in maps and ev[3] == "update" and len(ev[4]) == 1 and isinstance(ev[4][0], tuple) and len(ev[4][0]) == 5 and ev[4][0][0] == "comp" and ev[4][0][1] == "dict" and not eng.__dict__.get("_comp_store", {}).get(("ifs", ev[4][0][4])):
+                    # M.update({name: entry for name, md in section.items()}): one insertion per
+                    # element of the comprehension's loop
+                    comp = ev[4][0]
+                    base = comp[2][2][0] if is_call(comp[2], ("method:items", "method:keys", "method:values")) and comp[2][2] else comp[2]
+                    elc = ("elem", base, comp[4])
+                    kv = comp[3]
+                    L_ev = None
+                    for e2 in all_events(p.events):
+                        if e2[0] == "loop" and e2[3] == elc:
+                            L_ev = e2
+                    if L_ev is None or not (is_lit(kv, "tuple") and len(kv[2]) == 2):
+                        inserts.append((ev, None, None, flat_evs[:i], top_index if top_index is not None else i, lctx))
+                        continue
+                    for bp in L_ev[4]:
+                        if bp[0] in ("fall", "continue"):
+                            kterm, vterm = kv[2]
+                            if len(bp) > 3 and is_lit(bp[3], "tuple") and len(bp[3][2]) == 2:
+                                kterm, vterm = bp[3][2]
+                            syn = ("store", ev[1], ("sub", ev[2], kterm), vterm)
+                            inserts.append((syn, section_of(base), elc, [e3 for e3, _d3 in flatten_events(bp[2])], top_index if top_index is not None else i, lctx + [(L_ev, bp)]))
                 elif ev[0] in ("store", "mutcall", "del") and isinstance(ev[2], tuple) and ev[2][0] == "sub" and ev[2][1] in maps:
                     sect, el = None, None
                     for lev, _bp in reversed(lctx):
